@@ -14,6 +14,7 @@ import numpy as np
 
 from ..core import describe, import_library
 from ..gen import engines as E
+from ..env import ENVIRONMENTS, excusable, hostile, observe
 from ..probe import Probe, Reach
 
 WORKERS = {"quick": 1, "thorough": 16}
@@ -164,6 +165,8 @@ def run(ctx):
     )
     ctx.assumptions += ["needed operators are derived from the generator's rule trees and defuzzifier kinds", "all variables, blocks and rules are enabled in this workload (a disabled component may make a missing operator harmless; over-reporting is not a violation)"]
     funcs = {"Engine.is_ready": fl.Engine.is_ready, "Engine.process": fl.Engine.process}
+    ctx.excuse = lambda mechanism, observed, note: excusable(observed) or excusable(note)
+    keep_alive = []
     with Reach(funcs) as reach, Probe() as probe:
         mon = ReadyMonitor(ctx, fl)
         mon.install(probe)
@@ -209,6 +212,58 @@ def run(ctx):
                     except Exception:
                         pass  # judged by the monitor
                 ctx.hit(f"removed:{len(removed)}")
+            # the same engine object, asked once while complete, is then reconfigured (monotonic-term outputs given an integral
+            # defuzzifier, operators taken out) and asked again: the verdict is about the engine as it is now
+            try:
+                import copy as _copy
+
+                engine = E.build(fl, spec)
+                keep.append(engine)
+                mon.needs[id(engine)] = []
+                envname = ENVIRONMENTS[(i // 2) % len(ENVIRONMENTS)] if i % 2 == 1 else None
+                with hostile(fl, envname, ctx):
+                    engine.is_ready()
+                    for v, x in zip(engine.input_variables, rows[0]):
+                        v.value = x
+                    try:
+                        engine.process()
+                    except Exception:
+                        pass  # judged by the monitor
+                    # ... and with its rule blocks switched off: nothing fires, every fuzzy output is empty
+                    for rb in engine.rule_blocks:
+                        rb.enabled = False
+                    engine.is_ready()
+                    try:
+                        engine.process()
+                    except Exception:
+                        pass
+                    for rb, rbs in zip(engine.rule_blocks, spec["blocks"]):
+                        rb.enabled = rbs["enabled"]
+                    engine.is_ready()
+                    ctx.hit("event:ready engine processed with every rule block switched off")
+                spec2 = _copy.deepcopy(spec)
+                for o, ov in zip(spec2["outputs"], engine.output_variables):
+                    if o["kind"] in ("tsukamoto", "inverse") and o["defuzzifier"] and not spec.get("shared_defuzzifier"):
+                        o["kind"], o["aggregation"] = "integral", "Maximum"
+                        ov.defuzzifier, ov.aggregation = fl.Centroid(10), fl.Maximum()
+                        ctx.hit("event:weighted output given an integral defuzzifier on the live engine")
+                removed = rnd.sample(items, rnd.randint(1, min(3, len(items))))
+                if rnd.random() < 0.8:
+                    removed = sorted(set(removed) | {("block", bi, "implication") for bi in range(len(spec["blocks"]))})
+                for kind, idx, what in removed:
+                    setattr(engine.rule_blocks[idx] if kind == "block" else engine.output_variables[idx], what, None)
+                mon.needs[id(engine)] = needed_and_missing(spec2, removed)
+                observe(fl, engine, rnd, ctx, None, k=1, check=False)
+                engine.is_ready()
+                for v, x in zip(engine.input_variables, rows[1]):
+                    v.value = x
+                try:
+                    engine.process()
+                except Exception:
+                    pass
+                ctx.hit("event:engine reconfigured after a first verdict and asked again")
+            except Exception as ex:
+                ctx.hit(f"inconclusive:live reconfiguration: {type(ex).__name__}")
             # structural incompleteness: no inputs / no outputs / an output without terms / no rule blocks / an empty rule block
             for what in ("no-inputs", "no-outputs", "no-terms", "no-blocks", "empty-block", "no-activation"):
                 try:
@@ -241,6 +296,44 @@ def run(ctx):
             mon.verdict.clear()
             if i < 2:
                 ctx.sample("engine", {"fll": str(E.build(fl, spec))[:1200], "removable": [list(x) for x in items], "subsets_tried": len(subsets)})
+        # an input variable and an output variable that carry one name (the measured and the commanded `power`): the rules
+        # conclude about the output variable, which decides what the engine needs
+        for i, rnd in ctx.cases("shared names", ctx.scale(40, 800)):
+            name = rnd.choice(["power", "level", "T"])
+            integral = i % 3 != 2
+            for missing in (None, "implication", "aggregation", "defuzzifier", "conjunction"):
+                iv = [fl.InputVariable(name, minimum=0.0, maximum=1.0, terms=[fl.Triangle("low", 0.0, 0.25, 0.5), fl.Triangle("high", 0.5, 0.75, 1.0)]), fl.InputVariable("rate", minimum=0.0, maximum=1.0, terms=[fl.Ramp("up", 0.0, 1.0), fl.Ramp("down", 1.0, 0.0)])]
+                ov = fl.OutputVariable(name, minimum=0.0, maximum=1.0, aggregation=fl.Maximum(), defuzzifier=fl.Centroid(20) if integral else fl.WeightedAverage(), terms=[fl.Triangle("more", 0.0, 0.5, 1.0), fl.Triangle("less", 0.0, 0.25, 0.5)] if integral else [fl.Constant("more", 1.0), fl.Constant("less", 0.25)])
+                rb = fl.RuleBlock("rb", conjunction=fl.Minimum(), disjunction=fl.Maximum(), implication=fl.Minimum(), activation=fl.General(), rules=[fl.Rule.create(f"if rate is up and rate is not down then {name} is more"), fl.Rule.create(f"if rate is down then {name} is less")])
+                try:
+                    engine = fl.Engine("shared", input_variables=iv, output_variables=[ov], rule_blocks=[rb])
+                except Exception as ex:
+                    ctx.hit(f"inconclusive:shared-name engine does not build: {type(ex).__name__}")
+                    continue
+                keep_alive.append(engine)
+                needs = []
+                if missing == "implication":
+                    rb.implication = None
+                    needs = [("rb", "implication")] if integral else []
+                elif missing == "aggregation":
+                    ov.aggregation = None
+                    needs = [(name, "aggregation")] if integral else []
+                elif missing == "defuzzifier":
+                    ov.defuzzifier = None
+                    needs = [(name, "defuzzifier")]
+                elif missing == "conjunction":
+                    rb.conjunction = None
+                    needs = [("rb", "conjunction")]
+                mon.needs[id(engine)] = needs
+                engine.is_ready()
+                iv[0].value, iv[1].value = rnd.random(), rnd.random()
+                try:
+                    engine.process()
+                except Exception:
+                    pass  # judged by the monitor
+            ctx.hit("workload:input and output variable of one name")
+        mon.needs.clear()
+        mon.verdict.clear()
         # engines with disabled variables, rule blocks and rules: which operators are still needed is not derived here (a
         # disabled component may make a missing operator harmless), so only "ready implies processable" is judged
         for i, rnd in ctx.cases("disabled-components", ctx.scale(60, 4000)):
@@ -322,6 +415,7 @@ def run(ctx):
             ctx.hit("workload:shared defuzzifier object")
         probe.report(ctx)
         reach.report(ctx)
+    ctx.require("workload:input and output variable of one name", "event:engine reconfigured after a first verdict and asked again", "event:weighted output given an integral defuzzifier on the live engine", *[f"environment:{e}" for e in ENVIRONMENTS])
     ctx.require("workload:shared defuzzifier object", "workload:engines with disabled components", "workload:engine with a rule whose load is rejected", "workload:rule blocks with equal names", "workload:rule block with more than 32 rules", "workload:long Mamdani block fed batches")
     ctx.require("hook:Engine.is_ready", "hook:Engine.process", "event:is_ready:True", "event:is_ready:False", "event:process after ready", "converse:conjunction", "converse:disjunction", "converse:implication", "converse:aggregation", "converse:defuzzifier", "raise-site:Antecedent.activation_degree:missing operator surfaced", "raise-site:OutputVariable.defuzzify:missing operator surfaced")
 
